@@ -17,6 +17,7 @@ Interface to an X12 data stream.
    837 2400/LX
    837 HL tree
 """
+import re
 import sys
 
 # Intrapackage imports
@@ -214,11 +215,11 @@ class X12Base(object):
         @return: Int value if successful, None if not
         @rtype: int
         """
-        try:
-            return int(str_val)
-        except (ValueError, TypeError):
+        # X12 numeric: digits with an optional leading minus.  int() alone also
+        # takes '+1', ' 1', '1_2' and non-ASCII digits
+        if not isinstance(str_val, str) or not re.match(r'^-?[0-9]+$', str_val):
             return None
-        return None
+        return int(str_val)
 
     def get_isa_id(self):
         """
